@@ -120,6 +120,7 @@ class Session(object):
             self.do(21, [l])
             self.do(22, [l])
             self.do(41, [l])
+            self.do(47, [l])
             self.do(23, [l])
         pages = list(dict.fromkeys(self.tr.pages))
         for l in (rng.sample(pages, min(len(pages), 4)) if pages else []) + [G.gen_lru(rng)]:
